@@ -297,6 +297,25 @@ class Check(Property):
                          f"Python's format gives {want}")
         return v
 
+    def default_format_probe(self):
+        """a format taken from the registry's default_format means what the same text means when written in the call:
+        str(q), f"{q}" and format(q, "") equal format(q, default) - including the compact modifier #"""
+        v = []
+        for default in ("#~P", "#.3f~P", "#C", "#~", "~P", ".2f~", "#.2f", "C", "~L", "#~H"):
+            r = regs.fresh("float")
+            r.formatter.default_format = default
+            for x, un in ((1500.0, "meter"), (2.5e-7, "second"), (0.02, "kilogram"), (3.0e6, "gram")):
+                q = r.Quantity(x, un)
+                try:
+                    want = format(q, default)
+                    got = (str(q), f"{q}", format(q, ""))
+                except Exception as exc:  # noqa: BLE001
+                    v.append(f"C09 default_format = {default!r}: formatting {x} {un} raised {type(exc).__name__}: {exc}")
+                    continue
+                if any(g != want for g in got):
+                    v.append(f"C09 default_format = {default!r}: str / f-string / format(q, '') of {x} {un} give {got}, format(q, {default!r}) gives {want!r}")
+        return v[:6]
+
     def small_exponent_probe(self):
         """plain-text formats round-trip: non-integral exponents written with up to six significant digits parse back to the
         same unit, whatever their size (0.5, 1.5, 0.0625, 0.0123456, 0.000271828 ...) - long and short names, with a magnitude"""
@@ -356,7 +375,7 @@ class Check(Property):
     def oracle(self, c):
         if not getattr(self, "_symsrc_done", False):
             self._symsrc_done = True
-            sv = self.symbol_source_probe() + self.small_exponent_probe()
+            sv = self.symbol_source_probe() + self.small_exponent_probe() + self.default_format_probe()
             if sv:
                 return sv
         if c["kind"] == "split":
